@@ -42,7 +42,7 @@ let dump_lat (l : latches) : string =
   done;
   Buffer.contents b
 
-let pc_char p = match p with TNew -> 'N' | TAcq -> 'A' | TWait -> 'W' | TDone -> 'D' | TUnl -> 'U' | TRel -> 'R'
+let pc_char p = match p with TNew -> 'N' | TAcq -> 'A' | TWait -> 'W' | TDone -> 'D' | TUnl -> 'U' | TRel -> 'R' | TDrop -> 'X'
 
 let dump (s : state) : string =
   let b = Buffer.create 256 in
@@ -55,13 +55,15 @@ let dump (s : state) : string =
    | SIdle -> Buffer.add_string b " S idle"
    | SRel (i, wl) -> Buffer.add_string b (Printf.sprintf " S rel:%d:%s" (int_of_nat i) (nats wl))
    | SWake wl -> Buffer.add_string b (Printf.sprintf " S wake:%s" (nats wl))
-   | SRun (j, wl) -> Buffer.add_string b (Printf.sprintf " S run:%d:%s" (int_of_nat j) (nats wl)));
+   | SRun (j, wl) -> Buffer.add_string b (Printf.sprintf " S run:%d:%s" (int_of_nat j) (nats wl))
+   | STrig -> Buffer.add_string b " S trig");
   Buffer.contents b
 
 let ares_s r = match r with ASuccess -> "S" | ALocked -> "L" | AStale -> "X"
 
 exception Disabled
-let ex s l = match exec sf s l with Some s' -> s' | None -> raise Disabled
+let ns () = n_i !nslots
+let ex s l = match exec sf (ns ()) s l with Some s' -> s' | None -> raise Disabled
 
 (* apply an edge: returns (state', result string, extra complaints) *)
 let apply (s : state) (used : int) (op : string) : state * int * string * string list =
@@ -123,9 +125,11 @@ let apply (s : state) (used : int) (op : string) : state * int * string * string
   | 'W' ->
       let wl0 = (match s.sch with SWake wl -> wl | _ -> raise Disabled) in
       let cur = ref s in
-      while !cur.sch <> SIdle do cur := ex !cur LWake done;
+      let busy st = (match st.sch with SWake _ | SRun _ -> true | _ -> false) in
+      while busy !cur do cur := ex !cur LWake done;
       let r = String.concat "" (List.map (fun j -> if !cur.pc j = TDone then "D" else "L") wl0) in
       (!cur, used, r, [])
+  | 't' -> (ex s LTrig, used, "-", [])
   | 'c' ->
       (match String.split_on_char ':' arg with
        | [a; t] ->
@@ -149,12 +153,86 @@ let enabled (s : state) (used : int) : string list =
    | SIdle -> if s.chan <> [] then add "p"
    | SRel _ -> add "r"; if not !no_macro then add "R"
    | SWake _ -> add "w"; if not !no_macro then (add "V"; add "W")
-   | SRun _ -> add "w"; if not !no_macro then add "V");
+   | SRun _ -> add "w"; if not !no_macro then add "V"
+   | STrig -> add "t");
   if used < !rec_max then
     for sl = 0 to !nslots - 1 do
       List.iter (fun t -> add (Printf.sprintf "c%d:%d" sl t)) !rec_ts
     done;
   List.sort compare !en
+
+
+(* ---- script mode: the real scheduler after every client action, run to quiescence ---- *)
+let tx_start : (int, int) Hashtbl.t = Hashtbl.create 16
+let tx_keys : (int, int list) Hashtbl.t = Hashtbl.create 16
+let rec quiesce (s : state) : state =
+  let try_l l = exec sf (ns ()) s l in
+  match try_l LPop with Some s' -> quiesce s' | None ->
+  match try_l LRel with Some s' -> quiesce s' | None ->
+  match try_l LWake with Some s' -> quiesce s' | None ->
+  match try_l LTrig with Some s' -> quiesce s' | None ->
+  match try_l (LRecTask O) with Some s' -> quiesce s' | None -> s
+
+let sdump (s : state) : string =
+  let b = Buffer.create 256 in
+  for i = 0 to !nslots - 1 do
+    let sl = s.lat.slots (n_i i) in
+    Buffer.add_string b (Printf.sprintf "s%d#%d[" i (List.length sl.squeue));
+    Buffer.add_string b (String.concat " " (List.map (fun nd ->
+      Printf.sprintf "%d:%d:%s" (i_of_n nd.nkey) (i_of_n nd.nmax)
+        (match nd.nval with None -> "-" | Some h -> string_of_int (int_of_nat h))) sl.squeue));
+    Buffer.add_string b "]w[";
+    Buffer.add_string b (String.concat " " (List.map (fun w ->
+      Printf.sprintf "%d@%d" (int_of_nat w) (int_of_nat (s.lat.locks w).lacq)) sl.swaiting));
+    Buffer.add_string b "] "
+  done;
+  Buffer.add_string b "T ";
+  for i = 0 to !ntx - 1 do
+    let ii = nat_of_int i in
+    Buffer.add_char b (match s.pc ii with
+      | TNew -> 'N' | TAcq -> 'A' | TWait -> 'B'
+      | TDone -> if (s.lat.locks ii).lstale then 'S' else 'K'
+      | TUnl | TRel | TDrop -> 'U')
+  done;
+  Buffer.add_string b (Printf.sprintf " R %d" (i_of_n s.gl.lastrec));
+  Buffer.contents b
+
+let script_apply (s : state) (a : string) : state * string =
+  let arg () = int_of_string (String.sub a 1 (String.length a - 1)) in
+  match a.[0] with
+  | 'L' ->
+      let ii = arg () in let i = nat_of_int ii in
+      let cur = ref (ex s (LStart (i, List.map n_i (Hashtbl.find tx_keys ii), n_i (Hashtbl.find tx_start ii)))) in
+      while !cur.pc i = TAcq do cur := ex !cur (LAcq i) done;
+      let s' = quiesce !cur in
+      (s', if s'.pc i = TDone then "ret" else "blk")
+  | 'U' ->
+      let ii = arg () in let i = nat_of_int ii in
+      let c = if (s.lat.locks i).lstale then 0 else (try Hashtbl.find commits ii with Not_found -> 0) in
+      (quiesce (ex s (LUnlock (i, n_i c))), "-")
+  | 'X' -> (quiesce (ex s LClose), "-")
+  | 'M' ->
+      let todo = List.filter (fun ii -> s.pc (nat_of_int ii) = TDone) (List.init !ntx (fun x -> x)) in
+      let unl st ii = exec sf (ns ()) st (LUnlock (nat_of_int ii, n_i (try Hashtbl.find commits ii with Not_found -> 0))) in
+      (match todo with
+       | [] -> (s, "pending=0 blocked=0")
+       | first :: rest ->
+           (* run() receives the first lock and is stuck; the channel takes what fits; the others block *)
+           let cur = ref (ex (match unl s first with Some x -> x | None -> raise Disabled) LPop) in
+           let rem = ref rest and go = ref true in
+           while !go do (match !rem with
+             | [] -> go := false
+             | ii :: r -> (match unl !cur ii with Some x -> cur := x; rem := r | None -> go := false)) done;
+           let res = Printf.sprintf "pending=%d blocked=%d" (List.length !cur.chan) (List.length !rem) in
+           (* release: the scheduler drains, blocked senders get in as room appears *)
+           let rec drain st rem = (match rem with
+             | [] -> quiesce st
+             | ii :: r -> (match unl st ii with
+                 | Some x -> drain x r
+                 | None -> (match List.find_map (fun l -> exec sf (ns ()) st l) [LRel; LWake; LTrig; LPop] with
+                            | Some x -> drain x rem | None -> raise Disabled))) in
+           (drain !cur !rem, res))
+  | _ -> raise Disabled
 
 let () =
   let nedges = ref 0 and mism = ref 0 and nen = ref 0 and pfail = ref 0 in
@@ -187,7 +265,7 @@ let () =
         Hashtbl.replace commits ii (int_of_string cm);
         ntx := max !ntx (ii + 1);
         let (s, u) = List.hd !stack in
-        (match exec sf s (LStart (nat_of_int ii, List.map n_i (parse keys), n_i (int_of_string st))) with
+        (match exec sf (ns ()) s (LStart (nat_of_int ii, List.map n_i (parse keys), n_i (int_of_string st))) with
          | Some s' ->
              stack := (s', u) :: List.tl !stack;
              let lk = s'.lat.locks (nat_of_int ii) in
@@ -196,6 +274,23 @@ let () =
              let ms = List.map (fun k -> i_of_n (sf k)) lk.lkeys in
              if ms <> parse slots then mismatch "genlock-slots" line (ints ms)
          | None -> mismatch "start-disabled" line "")
+    | "TS" :: i :: st :: cm :: keys :: _ ->
+        let ii = int_of_string i in
+        let parse v = if v = "-" then [] else List.map int_of_string (String.split_on_char ',' v) in
+        Hashtbl.replace commits ii (int_of_string cm); Hashtbl.replace tx_start ii (int_of_string st);
+        Hashtbl.replace tx_keys ii (parse keys); ntx := max !ntx (ii + 1)
+    | "G" :: a :: "=>" :: res :: "|" :: d :: _ ->
+        incr nedges;
+        let (s, u) = List.hd !stack in
+        ops := a :: !ops;
+        bump ("script:" ^ String.make 1 a.[0] ^ ":" ^ res);
+        (match script_apply s a with
+         | (s', r) ->
+             stack := [ (s', u) ];
+             if r <> res then mismatch "script-result" line ("model=" ^ r)
+             else if sdump s' <> d then mismatch "script-dump" line ("model=" ^ sdump s')
+         | exception Disabled -> mismatch "script-model-disabled" line "the model's automaton does not allow this client action here"
+         | exception Not_found -> mismatch "script-model-disabled" line "unknown transaction")
     | "N" :: "init" :: "=>" :: _ :: "|" :: d :: _ ->
         let (s, _) = List.hd !stack in
         if dump s <> d then mismatch "init-dump" line (dump s)
